@@ -116,7 +116,7 @@ class Indentation(afmformats.AFMForceDistance):
                     fp.pop(ax)
 
         # remember preprocessing
-        self.preprocessing = preprocessing
+        self.preprocessing = list(preprocessing)
         self.preprocessing_options = copy.deepcopy(options)
 
         return self._preprocessing_details
@@ -310,7 +310,9 @@ class Indentation(afmformats.AFMForceDistance):
         if model_key is not None:
             self.fit_properties["model_key"] = model_key
         if self.fit_properties.get("params_initial", False):
-            parms = self.fit_properties["params_initial"]
+            # return a copy (the stored parameters must only be changed
+            # via `self.fit_properties` or `self.fit_model`)
+            parms = copy.deepcopy(self.fit_properties["params_initial"])
         elif "model_key" in self.fit_properties:
             parms = guess_initial_parameters(
                 self,
@@ -374,6 +376,9 @@ class Indentation(afmformats.AFMForceDistance):
             curhash = self.fit_properties["hash"]
         else:
             curhash = "none"
+        if names is not None:
+            # do not hold a reference to the list of the caller
+            names = list(names)
         if regressor.lower() == "none":
             rt = -1
         elif (self._rating is None or
